@@ -7,7 +7,6 @@ import (
 	stdxml "encoding/xml"
 	"fmt"
 	"io"
-	"regexp"
 	"strings"
 	"unicode/utf8"
 
@@ -132,7 +131,7 @@ func xChildPool() []xCons {
 		xSimple(xml.CommentToken, "<!-- h -->", " h "), xSimple(xml.CommentToken, "<!---->", ""), xSimple(xml.CommentToken, "<!-- a - b -> c -->", " a - b -> c "), xSimple(xml.CommentToken, "<!-- <a> -->", " <a> "),
 		xSimple(xml.CDATAToken, "<![CDATA[i]]>", "i"), xSimple(xml.CDATAToken, "<![CDATA[]]>", ""), xSimple(xml.CDATAToken, "<![CDATA[b]]c]>d]]]>", "b]]c]>d]"), xSimple(xml.CDATAToken, "<![CDATA[<a>&]]>", "<a>&"),
 		xSimple(xml.CDATAToken, "<![CDATA[x]]]]>", "x]]"), xSimple(xml.CDATAToken, "<![CDATA[]]]>", "]"),
-		xPI("p", nil), xPI("p", []xAttrSpec{{"q", ""}}), xPI("p", []xAttrSpec{{"d", `'f'`}}), xPI("xml-stylesheet", []xAttrSpec{{"href", `"a?>b"`}}))
+		xPI("p", nil), xPI("p", []xAttrSpec{{"q", ""}}), xPI("p", []xAttrSpec{{"d", `'f'`}}), xPI("xml-stylesheet", []xAttrSpec{{"href", `"a?b>c"`}}), xPI("php", []xAttrSpec{{"echo", ""}, {"1", ""}, {">", ""}, {"0;", ""}}))
 	for _, a := range xAttrPool {
 		p = append(p, xStart("f", []xAttrSpec{a}, [4]string{}, "/>"))
 	}
@@ -253,7 +252,6 @@ func c11VsEncodingXML(c *engine.Ctx, in []byte, got []xTok) {
 	}
 }
 
-var pseudoAttrs = regexp.MustCompile(`^(\s*[A-Za-z_:][-A-Za-z0-9_:.]*\s*=\s*("[^"<]*"|'[^'<]*'))*\s*$`)
 
 // c11Strict: whatever encoding/xml accepts in strict mode as a complete sequence of well-formed constructs must lex to
 // the same events (element names, attributes with normalised values, text and CDATA content, comments, PI targets,
@@ -322,11 +320,8 @@ func c11Strict(src []byte) string {
 			if !(bytes.HasPrefix(rest, []byte("?>")) || len(rest) > 0 && (rest[0] == ' ' || rest[0] == '\t' || rest[0] == '\n' || rest[0] == '\r')) {
 				return ""
 			}
-			// the lexer models a processing instruction as a tag with pseudo-attributes (the subset the property
-			// names); free-form instruction data is outside it
-			if !pseudoAttrs.Match(e.Inst) {
-				return ""
-			}
+			// the lexer models a processing instruction as a tag with pseudo-attributes; whatever the instruction's
+			// data look like, it has to end where the instruction ends (the tokens inside it are not compared)
 			want = append(want, "pi:"+e.Target)
 		case stdxml.Directive:
 			// encoding/xml passes any <!...> through with its own bracket counting: no reference for directives
